@@ -348,7 +348,7 @@ pub fn run(tier: &str) -> i32 {
         let t = match t {
             Some(t) => t,
             None => {
-                rep.filtered(&format!("generator not Ok: {}", v[0]));
+                rep.generation_failed(case.clone(), &v[0], &p.src, c);
                 continue;
             }
         };
